@@ -251,6 +251,14 @@ class SymOps:
         sel = z3.Select(arr, j)
         return z3.ForAll([j], f(j + 1) == f(j) + (z3.ToReal(sel) if z3.is_int(sel) else sel), patterns=[f(j + 1)])
 
+    def getitem(self, x, key):
+        from .engine import V
+        return z3.Function("getitem", V, V, V)(self.v(x), self.v(key))
+
+    def contains(self, container, item):
+        from .engine import V
+        return z3.Function("contains", V, V, z3.BoolSort())(self.v(container), self.v(item))
+
     def same_array(self, r, x):
         """Python-level: r is (a view of) the very array x, not a freshly built one."""
         return r.base == x.base
@@ -389,6 +397,12 @@ class ConcOps:
 
     def eq(self, x, y):
         return x == y
+
+    def getitem(self, x, key):
+        return x[key]
+
+    def contains(self, container, item):
+        return item in container
 
     def same_array(self, r, x):
         import numpy as np
